@@ -237,6 +237,39 @@ func benign(paths []string) {
 						// if/else inverted
 						if els, isBlk := iff.Else.(*ast.BlockStmt); isBlk {
 							add("benign: if/else inverted", iff.Pos(), iff.End(), "if !("+text(iff.Cond)+") "+text(els)+" else "+text(iff.Body))
+							// else dropped after a body that ends in return / continue / break
+							if nb := len(iff.Body.List); nb > 0 {
+								leaves := false
+								switch l := iff.Body.List[nb-1].(type) {
+								case *ast.ReturnStmt:
+									leaves = true
+								case *ast.BranchStmt:
+									leaves = l.Tok == token.CONTINUE || l.Tok == token.BREAK
+								}
+								if leaves && len(els.List) > 0 {
+									inner := string(src[off(els.Lbrace)+1 : off(els.Rbrace)])
+									add("benign: else dropped after return", iff.Pos(), iff.End(), "if "+text(iff.Cond)+" "+text(iff.Body)+"\n"+inner)
+								}
+							}
+						}
+						// De Morgan on a negated conjunction / disjunction of two operands
+						if un, isUn := iff.Cond.(*ast.UnaryExpr); isUn && un.Op == token.NOT {
+							if par, isPar := un.X.(*ast.ParenExpr); isPar {
+								if be, isB := par.X.(*ast.BinaryExpr); isB && (be.Op == token.LAND || be.Op == token.LOR) {
+									op := "||"
+									if be.Op == token.LOR {
+										op = "&&"
+									}
+									add("benign: De Morgan", iff.Cond.Pos(), iff.Cond.End(), "!("+text(be.X)+") "+op+" !("+text(be.Y)+")")
+								}
+							}
+						}
+						if be, isB := iff.Cond.(*ast.BinaryExpr); isB && (be.Op == token.LAND || be.Op == token.LOR) {
+							op := "||"
+							if be.Op == token.LOR {
+								op = "&&"
+							}
+							add("benign: De Morgan (negated form)", iff.Cond.Pos(), iff.Cond.End(), "!(!("+text(be.X)+") "+op+" !("+text(be.Y)+"))")
 						}
 					}
 				}
